@@ -159,7 +159,10 @@ def assume(x: S, cond: S, truth: bool) -> S:
     known: dict = {}
 
     def learn(c, t):
-        known[c] = K_TRUE if t else K_FALSE
+        # a test that is not itself a truth value (``if rectangles:``) says something about its truthiness only: the
+        # expression keeps its value wherever it is used as a value
+        if _is_boolean(c):
+            known[c] = K_TRUE if t else K_FALSE
         known[mk_not(c)] = K_FALSE if t else K_TRUE
         if isinstance(c, tuple) and c:
             if c[0] == "and" and t:
